@@ -140,7 +140,8 @@ def norm_arith(txt):
     txt = _rewrite_nodes(txt, "Ge", lambda a: "Le(%s,%s)" % (a[1], a[0]) if len(a) == 2 else None)
     for _ in range(5):
         before = txt
-        for op in ("BitOr", "BitAnd", "BitXor", "Mul", "Eq", "Ne"):
+        # (`min` / `max` of a total order agree with their mirrored call up to `==`; all uses here are on primitive integers)
+        for op in ("BitOr", "BitAnd", "BitXor", "Mul", "Eq", "Ne", "core::cmp::Ord::min", "core::cmp::Ord::max", "core::cmp::min", "core::cmp::max"):
             txt = _rewrite_nodes(txt, op, lambda a, op=op: "%s(%s)" % (op, ",".join(sorted(a))) if len(a) == 2 else None)
         if txt == before:
             break
